@@ -79,6 +79,7 @@ type Def struct {
 	A, Rf                      float64 // numeric ellipsoid when known (EllKind ab/arf)
 	BothDatum                  bool    // named datum and explicit towgs84 together
 	Spelling                   uint64  // non-zero: permuted clause order / irregular blanks
+	RA                         bool    // +R_A given
 	OmittedDefaults            bool    // some of x_0 / y_0 / lat_0 / lon_0 are zero and not written (or written as 0)
 }
 
@@ -131,7 +132,7 @@ func (d *Def) Pos(r *R) (lon, lat float64) {
 	if r.Chance(0.15) {
 		// boundary positions: on the central meridian, at the edge of the usable region,
 		// on the equator / the limiting parallels
-		switch r.Intn(4) {
+		switch r.Intn(6) {
 		case 0:
 			lon = d.Lon0
 		case 1:
@@ -142,6 +143,13 @@ func (d *Def) Pos(r *R) (lon, lat float64) {
 			if d.LatMin <= 0 && d.LatMax >= 0 {
 				lat = 0
 			}
+		case 4:
+			// a hair off the equator / the central meridian (1e-9 .. 1e-4 degrees)
+			if d.LatMin <= 0 && d.LatMax >= 0 {
+				lat = math.Pow(10, r.Range(-9, -4)) * float64(1-2*r.Intn(2))
+			}
+		case 5:
+			lon = d.Lon0 + math.Pow(10, r.Range(-9, -4))*float64(1-2*r.Intn(2))
 		}
 	}
 	return wrapLon(lon), lat
@@ -204,6 +212,7 @@ type Options struct {
 	SmallTowgs  bool // random towgs84 limited to |t|<=100 m, |r|<=1", |s|<=2 ppm
 	NoBothDatum bool // never combine a named datum with an explicit towgs84
 	NoOmit      bool // never leave out default-valued clauses
+	AllowRA     bool // +R_A may be added to definitions without a datum (C08 only: under +R_A the port, proj4js and PROJ.4 disagree about Mercator, so there is no oracle for C09, and with a datum shift the 2-D round trip loses the height of the sphere against the ellipsoid)
 }
 
 // AllProjs lists the supported projections.
@@ -468,6 +477,10 @@ func Gen(r *R, o *Options) *Def {
 		} else {
 			d.Ell, d.EllKind = " +ellps=bessel", "name"
 		}
+	}
+	if o.AllowRA && d.DatKind == "none" && d.EllKind != "sphere" && d.Proj != "krovak" && r.Chance(0.08) {
+		d.Extra += " +R_A" // the sphere of equal surface area instead of the ellipsoid
+		d.RA = true
 	}
 	if !o.NoOmit && (d.Proj == "lcc" || d.Proj == "aea" || d.Proj == "eqdc" || d.Proj == "tmerc" || d.Proj == "merc") && o.Area == nil && r.Chance(0.12) {
 		// parameters at their PROJ.4 default (zero) that are simply not written: false origin,
